@@ -2675,6 +2675,17 @@ class VM:
                 pending.extend(item._properties.values())
         return value
 
+    @staticmethod
+    def _describe(value: JSValue) -> str:
+        """Text of a value for an error message (never the host's repr of it)."""
+        if isinstance(value, JSFunction):
+            return repr(value)
+        if isinstance(value, JSArray):
+            return "[object Array]"
+        if not isinstance(value, JSObject) and callable(value):
+            return "[Function (native)]"
+        return to_string(value)
+
     def _call_function(self, arg_count: int, this_val: Optional[JSValue]) -> None:
         """Call a function."""
         args = []
@@ -2689,7 +2700,7 @@ class VM:
             result = callee(*args)
             self.stack.append(self._adopt(from_python(result)))
         else:
-            raise JSTypeError(f"{callee} is not a function")
+            raise JSTypeError(f"{self._describe(callee)} is not a function")
 
     def _call_method(
         self, method: JSValue, this_val: JSValue, args: List[JSValue]
@@ -2707,7 +2718,7 @@ class VM:
             result = method(*args)
             self.stack.append(self._adopt(from_python(result)))
         else:
-            raise JSTypeError(f"{method} is not a function")
+            raise JSTypeError(f"{self._describe(method)} is not a function")
 
     def _call_callback(
         self, callback: JSValue, args: List[JSValue], this_val: JSValue = None
@@ -2728,7 +2739,7 @@ class VM:
             result = callback(*args)
             return from_python(result)
         else:
-            raise JSTypeError(f"{callback} is not a function")
+            raise JSTypeError(f"{self._describe(callback)} is not a function")
 
     def _run_callback(
         self, callback: JSFunction, args: List[JSValue], this_val: JSValue = None
@@ -2924,7 +2935,7 @@ class VM:
             while hasattr(target, "_original_func"):
                 target = target._original_func
             if hasattr(target, "_lexical_this"):
-                raise JSTypeError(f"{constructor} is not a constructor")
+                raise JSTypeError(f"{self._describe(constructor)} is not a constructor")
             # Create new object
             obj = JSObject()
             # Set prototype from constructor's prototype property
@@ -2943,7 +2954,7 @@ class VM:
             result = constructor._call_fn(*args)
             self.stack.append(result)
         else:
-            raise JSTypeError(f"{constructor} is not a constructor")
+            raise JSTypeError(f"{self._describe(constructor)} is not a constructor")
 
     def _get_source_location(self) -> Tuple[Optional[int], Optional[int]]:
         """Get the source location (line, column) for the current instruction."""
